@@ -316,6 +316,16 @@ def props_check(R, name, extra_targets=()):
         R.violation({'kind': 'theorem file coq/%s.v no longer checks' % name, 'rc': rc, 'theorems': n_thm, 'print_assumptions': n_pa,
                      'closed': closed, 'axiom_reports': axioms, 'log': text[-3000:]}, no_input=True)
     R.cov['checker_cmd'] = (R.cov.get('checker_cmd') or '') + 'make -C /verif/coq %s.vo (full .vo build, Print Assumptions under every theorem); ' % name
+    if ok and R.tier == 'thorough':
+        # independent re-check of the compiled property file and everything it depends on
+        rc2, o2, e2 = sh(['coqchk', '-o', '-silent', '-Q', COQ, 'V', 'V.' + name], cwd=COQ, timeout=3000, check=False)
+        txt = o2 + e2
+        clean = rc2 == 0 and re.search(r'Axioms:\s*<none>', txt) and re.search(r'type-in-type:\s*<none>', txt) and re.search(r'unsafe \(co\)fixpoints:\s*<none>', txt) and re.search(r'positivity is assumed:\s*<none>', txt)
+        R.extra['coqchk'] = {'module': 'V.' + name, 'rc': rc2, 'axioms_none': bool(clean)}
+        R.cov['checker_cmd'] += 'coqchk -o -silent -Q /verif/coq V V.%s; ' % name
+        if not clean:
+            R.violation({'kind': 'coqchk does not accept coq/%s.vo or reports axioms / unsafe features' % name, 'output': txt[-2000:]}, no_input=True)
+            ok = False
     R.extra.setdefault('theorems', []).extend(re.findall(r'^\s*(?:Theorem|Corollary)\s+(\w+)', src_nc, flags=re.M))
     return ok
 
